@@ -101,8 +101,10 @@ def run(pid):
     rounds = 24 if thorough else 8
     st = [dict(buckets=[4, 16][i % 2], writers=4, readers=4, keys=[32, 64][i % 2], writes=1500, reads=2000, flushers=2, idxgc=False, prigc=False, gate=False,
                lowUse=101, pl=[4096, 1 << 30][i % 2], il=[2048, 1 << 30][(i // 2) % 2], owngc=False, seed=vlib.seed() * 100 + i) for i in range(rounds)]
-    # all scenarios of one harness run share the bucket count: two runs
-    for nb in (4, 16):
+    # ... and the same under the CID primary (its own write pool and flush)
+    st += [dict(x, cid=True, buckets=8, pl=1 << 30, seed=x["seed"] + 50) for x in st[: (8 if thorough else 3)]]
+    # all scenarios of one harness run share the bucket count and the primary type: three runs
+    for nb in (4, 16, 8):
         part = [x for x in st if x["buckets"] == nb]
         d = vlib.subdir("c05.stress%d" % nb)
         sf = os.path.join(d, "scen.ndjson")
